@@ -8,6 +8,10 @@ import sys
 
 cfg = json.loads(sys.argv[1])
 out = {"preimport_errors": {}}
+if cfg.get("ipython"):
+    # interactive session (IPython / Jupyter): the builtin get_ipython exists
+    import builtins
+    builtins.get_ipython = lambda: None
 for m in cfg.get("preimport", []):
     try:
         importlib.import_module(m)
